@@ -191,8 +191,8 @@ def run(case):
     objs[s['name']] = probes.register_probe(s, obj)
     current[s['name']] = s
     first_spec[s['name']] = s
-    if s['kind'] == 'fn':
-      originals[s['name']] = obj
+    # (classes as well: gin.configurable on the same class object once more)
+    originals[s['name']] = obj
   g = {'_hook': hook, '__name__': 'ginsim_probes'}
   exec(compile(K_SRC, '<K>', 'exec'), g)  # pylint: disable=exec-used
   K = g['K']
